@@ -2,7 +2,10 @@
 (from the sidecar) for symbolic-length sequences and `while` loops."""
 import ast
 
-import z3
+try:
+    import z3
+except ImportError:      # replays run under the repository's interpreter, without z3
+    z3 = None
 
 from .path import PathAbort, Unsupported
 from .values import SInt, SBool, SList, SOpt, SChoice, Sym, to_z3, wrap
@@ -117,6 +120,10 @@ def _havoc(interp, frame, spec, modified_names, tag):
             continue
         frame.locals[name] = ty.make(interp, '%s@%s' % (name, tag))
     for name, ty in spec.modifies.items():
+        if name.startswith('ghost:'):
+            # ghost state (interp.st.ghost) changed by models/contracts called in the body
+            interp.st.ghost[name[6:]] = ty.make(interp, '%s@%s' % (name, tag))
+            continue
         if name not in modified_names and ty != 'local' and not name.startswith('@'):
             if '.' in name:
                 # object field:  'self._x'
